@@ -185,8 +185,16 @@ impl NonOwningDecoder {
                 {
                     *num_init_seq_bytes += 1;
                 } else {
-                    *num_discarded_bytes += 1 + usize::from(*num_init_seq_bytes);
-                    *num_init_seq_bytes = 0;
+                    // keep the longest suffix of the bytes read so far that is still a
+                    // prefix of the start sequence (`1b1b1b1b 01010101`)
+                    let keep: u8 = match (b, *num_init_seq_bytes) {
+                        (0x1b, 4) => 4,
+                        (0x1b, _) => 1,
+                        _ => 0,
+                    };
+                    *num_discarded_bytes +=
+                        1 + usize::from(*num_init_seq_bytes) - usize::from(keep);
+                    *num_init_seq_bytes = keep;
                 }
                 if *num_init_seq_bytes == 8 {
                     let num_discarded_bytes = *num_discarded_bytes;
